@@ -48,6 +48,6 @@ CONTRACTS.append(Contract(
                         ]}}},
     raises={'*': {'ensures': ["True"]}},
     result="none", serves=["C12"],
-    ghost={'externals': EXT, 'stmt_range': (2, 4), 'block_locals': {'formatted_args': 'seq[str]'}},
-    notes="BLOCK contract (statements 3-4 of the method); per-iteration contract of the record loop; "
+    ghost={'externals': EXT, 'stmt_range': ('out = []', 2), 'block_locals': {'formatted_args': 'seq[str]'}},
+    notes="BLOCK contract (`out = []` and the record loop that follows it); per-iteration contract of the record loop; "
           "UnicodeDecodeError records (two extra stream lines in front) are outside the step's precondition"))
